@@ -27,6 +27,37 @@ NOT_DECIDED = ("that arbitrary sheets are grouped correctly at run time beyond t
 ASSUMPTIONS = ["representative rows stand for their shape class (complete / sparse / shared list / extra columns)", "csv.writer.writerow is positional"]
 
 
+def _choices_threading_rule(ctx):
+    """A select finds its list's Itemset (and with it the decision itext vs. in-line labels) through the `choices`
+    mapping the builder threads down the recursion: every builder method that receives `choices` hands it on at every
+    call of a builder method that accepts it - also for the children of loops and included sections."""
+    r = Rule("C09", "C09.R9", "the choices mapping is threaded through every recursive builder call", floor=3,
+             necessary="a select built without the mapping is not bound to its list: its labels are read from `label` while the list's items carry itextId only")
+    bcls = ctx.repo.cls("pyxform.builder:SurveyElementBuilder")
+    takes = {}
+    for name, fi in bcls.methods.items():
+        a = fi.node.args
+        params = [x.arg for x in [*a.posonlyargs, *a.args, *a.kwonlyargs]]
+        if "choices" in params:
+            takes[name] = params
+    n = 0
+    for name, fi in sorted(bcls.methods.items()):
+        if name not in takes:
+            continue
+        for c in walk_own(fi.node):
+            if isinstance(c, ast.Call) and isinstance(c.func, ast.Attribute) and isinstance(c.func.value, ast.Name) and c.func.value.id == "self" and c.func.attr in takes:
+                n += 1
+                passed = next((k.value for k in c.keywords if k.arg == "choices"), None)
+                if passed is None:
+                    idx = takes[c.func.attr].index("choices") - 1  # minus self
+                    passed = c.args[idx] if 0 <= idx < len(c.args) else None
+                ok = passed is not None and any((isinstance(n_, ast.Name) and n_.id == "choices") or (isinstance(n_, ast.Attribute) and n_.attr == "choices") for n_ in ast.walk(passed))
+                r.check(ok, f"{fi.qualname} -> {c.func.attr}(choices=)", "the mapping received is the mapping handed on", fi.loc(c),
+                        why_fail=f"choices={norm(passed) if passed is not None else 'omitted'}")
+    r.check(n >= 3, "builder calls census", f"{n} recursive builder calls that accept `choices` examined", bcls.module.relpath)
+    return r
+
+
 def sparse_extra_columns_obligation(ctx, rule, rid):
     repo = ctx.repo
     scls = repo.cls("pyxform.survey:Survey")
@@ -523,4 +554,5 @@ def run(ctx):
     rules.append(r7)
     from .c13 import cell_cleaning_rule
     rules.append(cell_cleaning_rule(ctx, "C09", "C09.R8"))
+    rules.append(_choices_threading_rule(ctx))
     return rules
